@@ -44,7 +44,11 @@ pub struct FileAppender {
 impl Append for FileAppender {
     fn append(&self, record: &Record) -> anyhow::Result<()> {
         let mut file = self.file.lock();
-        self.encoder.encode(&mut *file, record)?;
+        // encode into memory first: an encoder that fails half-way must not leave a torn
+        // record in the buffer (it would be glued in front of the next record)
+        let mut buf = Vec::new();
+        self.encoder.encode(&mut SimpleWriter(&mut buf), record)?;
+        file.write_all(&buf)?;
         #[cfg(feature = "verif_hooks")]
         crate::verif_hooks::critical_section_point("file:between-encode-and-flush");
         file.flush()?;
